@@ -165,6 +165,9 @@ def _run(cmd, timeout, mem_gb, out_path=None, cwd=None):
 
 IGNORED_CLASSES = {"NaN"}           # Kani's default NaN-production checks: not a property
 INFO_CLASSES = {"reachability_check", "cover"}
+# CBMC's C library model of fma()/fmaf() asserts when it would raise an IEEE exception flag
+# (overflow to infinity): that is not a panic or UB in Rust, same status as the NaN class.
+IGNORED_FUNCTIONS = {"feraiseexcept"}
 
 
 def prop_class(pid):
@@ -191,6 +194,7 @@ class HarnessResult:
         self.vars = None
         self.clauses = None
         self.cmdline = ""
+        self.unwindset = []
 
     def to_json(self):
         d = dict(self.__dict__)
@@ -253,8 +257,26 @@ def run_harness(ov, hmeta, spec, workdir):
         unwind = hmeta["attributes"].get("unwind_value")
     if unwind is not None:
         cb += ["--unwind", str(unwind)]
-    if spec.get("unwindset"):
-        cb += ["--unwindset", ",".join(spec["unwindset"])]
+    uws = list(spec.get("unwindset") or [])
+    if spec.get("unwind_rules"):
+        # per-loop bounds: loop ids are discovered on this very goto binary and matched by function name
+        lp = os.path.join(workdir, name + ".loops.json")
+        _run([K + "/bin/cbmc", "--show-loops", "--json-ui", out], 300, mem, out_path=lp)
+        try:
+            for item in json.load(open(lp)):
+                for l in item.get("loops", []) if isinstance(item, dict) else []:
+                    lname = l["name"]
+                    fn = l.get("sourceLocation", {}).get("function", "")
+                    for rx, bound in spec["unwind_rules"]:
+                        if re.search(rx, fn) or re.search(rx, lname):
+                            uws.append("%s:%d" % (lname, bound))
+                            break
+        except Exception as e:
+            res.detail = "show-loops failed: %r" % (e,)
+        _safe_unlink(lp)
+    if uws:
+        cb += ["--unwindset", ",".join(uws)]
+    res.unwindset = uws
     cb += ["--sat-solver", "cadical", "--slice-formula", out, "--verbosity", "9", "--json-ui", "--trace"]
     cb += spec.get("extra_cbmc", [])
     res.cmdline = " ".join(os.path.basename(x) if x.startswith("/") else x for x in cb)
@@ -301,6 +323,7 @@ def run_harness(ov, hmeta, spec, workdir):
         return res
     pretty = hmeta["pretty_name"]
     unwind_fail = False
+    undecided = 0
     for r in results:
         fn, cls = prop_class(r["property"])
         stt = r["status"]
@@ -313,10 +336,13 @@ def run_harness(ov, hmeta, spec, workdir):
         if cls == "reachability_check":
             res.reach[fn] = res.reach.get(fn, False) or (stt == "FAILURE")
             continue
-        if cls in IGNORED_CLASSES:
+        if cls in IGNORED_CLASSES or fn in IGNORED_FUNCTIONS:
             res.ignored += 1
             continue
         res.checks += 1
+        if stt not in ("SUCCESS", "FAILURE"):
+            undecided += 1
+            continue
         if stt == "SUCCESS":
             res.checks_ok += 1
             continue
@@ -327,7 +353,10 @@ def run_harness(ov, hmeta, spec, workdir):
         if "trace" in r:
             f["inputs"] = _extract_inputs(r["trace"], pretty)
         res.failed.append(f)
-    if not res.failed:
+    if undecided:
+        res.status = "error"
+        res.detail = "%d checks left undecided by CBMC (status not SUCCESS/FAILURE)" % undecided
+    elif not res.failed:
         res.status = "pass"
     elif unwind_fail and all(f["class"] == "unwind" for f in res.failed):
         res.status = "unwind"
@@ -365,6 +394,9 @@ def run_all(ov, metas, specs, jobs):
             log("  [%s] %-44s %7.1fs checks=%d/%d covers=%d/%d %s" % (
                 r.status.upper(), s["name"], r.wall, r.checks_ok, r.checks,
                 sum(1 for v in r.covers.values() if v), len(r.covers), r.detail[:120]))
+            for f in r.failed[:4]:
+                log("        - %s [%s] in %s (%s:%s) inputs=%s" % (f["description"][:100], f["class"], f["function"][-60:], f["file"], f["line"],
+                    {k: v.get("data") for k, v in (f.get("inputs") or {}).items()}))
         return r
 
     with ThreadPoolExecutor(max_workers=jobs) as ex:
